@@ -257,11 +257,12 @@ func (r *Reader) Drained() bool { return r.Ended != "" }
 
 // WriteFault is the requested fault for one opened write stream.
 type WriteFault struct {
-	Kind    string // "", "writeerr", "commiterr", "openerr"
-	AtWrite int    // writeerr: index of the failing Write
-	Partial int    // writeerr: bytes of that Write accepted before failing (taken modulo len)
-	OneShot bool   // writeerr: only that one Write fails (a transient error); later Writes succeed
-	Sync    bool   // the writer also offers Sync() error, as a file-backed storage writer does (it succeeds)
+	Kind    string        // "", "writeerr", "commiterr", "openerr"
+	AtWrite int           // writeerr: index of the failing Write
+	Partial int           // writeerr: bytes of that Write accepted before failing (taken modulo len)
+	OneShot bool          // writeerr: only that one Write fails (a transient error); later Writes succeed
+	Sync    bool          // the writer also offers Sync() error, as a file-backed storage writer does (it succeeds)
+	After   func(idx int) // called after the Write with that index went through (e.g. to cancel a context there)
 }
 
 // Writer wraps the store's writer.
@@ -303,6 +304,9 @@ func (w *Writer) Write(p []byte) (int, error) {
 	}
 	n, err := w.Inner.Write(p)
 	w.Bytes += n
+	if w.F.After != nil {
+		w.F.After(idx)
+	}
 	return n, err
 }
 
